@@ -26,7 +26,7 @@ ASSUMPTIONS = [
 
 def floors(tier):
     return {'touch-observations': 100, 'builds:default-clean': 20, 'builds:noop': 20,
-            'targets:alias-or-tests': 10, 'distinct_nontrivial': 15}
+            'targets:alias-or-tests': 10, 'failed-step:injected': 25, 'distinct_nontrivial': 15}
 
 
 def cases(tier, seed):
@@ -37,6 +37,7 @@ def cases(tier, seed):
         for backend in ('make', 'ninja'):
             yield {'spec': spec, 'backend': backend, 'index': i,
                    'max_touch': 8 if tier == 'quick' else 1000,
+                   'max_fail': 2 if tier == 'quick' else 6,
                    'touch_seed': '%d/%d' % (seed, i)}
 
 
@@ -89,6 +90,7 @@ def run_case(case):
 
         # 1. clean default build
         rc, out, recs = p.build()
+        all_recs = list(recs)
         sids, unknown = p.classify(recs)
         res.ev('builds:default-clean')
         res.evaluations += 1
@@ -114,6 +116,7 @@ def run_case(case):
         # 3. everything
         allsteps = m.everything_steps()
         rc, out, recs = p.build(['everything'])
+        all_recs += recs
         sids, unknown = p.classify(recs)
         res.evaluations += 1
         if rc != 0:
@@ -172,6 +175,71 @@ def run_case(case):
             res.ev('builds:noop')
             _cmp(res, p, 'noop-after-touch', sids, m.always_steps(allsteps),
                  {'touched': f, 'touched_kind': kind}, wb)
+
+        # 4b. a step that fails is retried: after a touched input, one downstream step dies
+        # (injected: the stub tool exits 1 before writing anything); the next build must run
+        # that step and everything downstream of it again, and then be quiet
+        first_word = {}       # sid -> an argument that identifies the step's process
+        for r in all_recs:
+            ss, _ = p.classify([r])
+            if not ss or ss[0] not in m.steps or ss[0] in first_word:
+                continue
+            a = r['argv']
+            ident = [x for x in a[1:3] if x.startswith('--id=')]
+            if ident:
+                first_word[ss[0]] = ident[0]
+            elif '-o' in a[:-1]:
+                first_word[ss[0]] = a[a.index('-o') + 1]
+        fcands = [f for f in cands if any(s in first_word for s in m.downstream(f))]
+        # (quick: two per project, those with a multi-output step downstream first)
+        fcands.sort(key=lambda f: -max(len(m.steps[s]['out']) for s in m.downstream(f)))
+        for f in fcands[:case.get('max_fail', 2)]:
+            down = m.downstream(f)
+            victims = sorted((s for s in down if s in first_word and
+                              not m.steps[s]['always']),
+                             key=lambda s: (-len(m.steps[s]['out']), s))
+            if not victims:
+                continue
+            victim = victims[0] if len(m.steps[victims[0]]['out']) > 1 else rng.choice(victims)
+            p.touch(f)
+            rc, out, recs = p.build(['everything'],
+                                    extra_env={'VSTUB_FAIL_MATCH': first_word[victim]})
+            ran1, _ = p.classify(recs)
+            res.ev('failed-step:injected')
+            res.evaluations += 1
+            wf = {'touched': f, 'failed_step': victim,
+                  'failed_step_kind': m.steps[victim]['kind'],
+                  'failed_step_outputs': len(m.steps[victim]['out'])}
+            if victim not in ran1:
+                # the step was not started at all: the touch check above has said so already
+                res.ev('failed-step:victim-not-started')
+                p.build(['everything'])
+                continue
+            if rc == 0:
+                res.violate((backend, 'failed-step', 'build-reported-success'),
+                            dict(wb, output=out[-600:], **wf))
+            rc, out, recs = p.build(['everything'])
+            ran2, _ = p.classify(recs)
+            must = {victim}
+            for o in m.steps[victim]['out']:
+                must |= m.downstream(o)
+            # steps that wait for the victim's outputs could not run in the failed build
+            must |= (down - set(ran1))
+            must = {s for s in must if not _symlink_copy(m, s)}
+            lost = sorted(must - set(ran2))
+            if lost or rc != 0:
+                res.violate((backend, 'failed-step', 'not-retried' if lost else 'retry-failed',
+                             m.steps[victim]['kind'] +
+                             ('-multi' if len(m.steps[victim]['out']) > 1 else '')),
+                            dict(wb, not_rerun=lost, ran_in_failed_build=sorted(set(ran1)),
+                                 ran_in_next_build=sorted(set(ran2)), rc=rc,
+                                 output=out[-500:], **wf))
+            else:
+                res.ev('failed-step:retried')
+            rc, out, recs = p.build(['everything'])
+            sids, unknown = p.classify(recs)
+            res.ev('builds:noop')
+            _cmp(res, p, 'noop-after-retry', sids, m.always_steps(allsteps), wf, wb)
 
         # 5. aliases and tests from clean
         targets = [(name, m.node_target_steps(members)) for name, members in
